@@ -142,6 +142,47 @@ def direct_sets(b, inst, rng, max_nodes=3):
     return ev
 
 
+def fixed_decodes(b, enc_type, dvs, xs, rng, max_vars=3, max_x=4):
+    """Decodes while ONE variable is fixed, on a processor of its own (C16 / C07 under fixed variables: what the corrected
+    vector reports for an absent design-variable node is its own canonical value)."""
+    from adsg_core.optimization.graph_processor import GraphProcessor
+    ev = []
+    try:
+        p2 = GraphProcessor(b.dsg, encoder_type=enc_type)
+    except Exception:
+        return ev
+    cand = [j for j, d in enumerate(dvs) if d['kind'] in ('sel', 'dv')][:max_vars]
+    for j in cand:
+        d = dvs[j]
+        val = 0 if d['disc'] else d['lo']/UNIT
+        try:
+            p2.fix_des_var(list(p2.all_des_vars)[j], val)
+        except Exception:
+            continue
+        try:
+            free = dv_obs(b, p2)
+            if len(free) != len(dvs)-1:
+                continue
+            bases = [xs[0], xs[-1]] + [rng.choice(xs) for _ in range(max(0, max_x-2))]
+            for base in bases:
+                xi = [v for i, v in enumerate(base) if i != j]
+                for create in (True, False):
+                    e = {'e': 'FixDec', 'fixed': j+1, 'x': xi, 'create': create, 'err': '', 'rx': [], 'ract': [], 'dvs': free}
+                    try:
+                        _, rx, ract = p2.get_graph(xreal(free, xi), create=create)
+                        e['rx'] = xq(free, rx)
+                        e['ract'] = [bool(a) for a in ract]
+                    except Exception as ex:
+                        e['err'] = type(ex).__name__
+                    ev.append(e)
+        finally:
+            try:
+                p2.free_des_var(list(p2.all_des_vars)[j])
+            except Exception:
+                pass
+    return ev
+
+
 def decode(b, p, dvs, xi, create):
     ev = {'e': 'Dec', 'x': xi, 'create': create, 'err': '', 'rx': [], 'ract': [], 'inst': NO_INST, 'hasinst': False}
     try:
@@ -185,7 +226,12 @@ def drive(g, tid=0, cap=600, seed=0, encoders=('complete', 'fast'), redecode=Tru
         ev.append(new)
         xs, complete = declared_space(dvs, rng, cap)
         first_inst = None
-        for xi in xs + out_of_range(dvs, xs, rng):
+        oob = out_of_range(dvs, xs, rng)
+        for n_x, xi in enumerate(xs + oob):
+            if n_x >= len(xs):
+                # an out-of-range request is also decoded WITHOUT materialising the instance (the vector-only path clamps too)
+                e0, _ = decode(b, p, dvs, xi, False)
+                ev.append(e0)
             e1, inst = decode(b, p, dvs, xi, True)
             ev.append(e1)
             if inst is not None and first_inst is None and e1['inst']['dvv']:
@@ -200,6 +246,8 @@ def drive(g, tid=0, cap=600, seed=0, encoders=('complete', 'fast'), redecode=Tru
             ev.append(e3)
         if first_inst is not None and enc == 'complete':
             ev += direct_sets(b, first_inst, rng)
+        if any(d['kind'] == 'dv' for d in dvs):
+            ev += fixed_decodes(b, ENC[enc], dvs, xs, rng)
         # enumeration of the valid designs (complete encoder; None when unavailable)
         en = {'e': 'Enum', 'enc': enc, 'err': '', 'avail': False, 'rows': [], 'n_valid': -1, 'n_declared': -1,
               'ratio_ppm': -1, 'space_complete': complete}
